@@ -425,3 +425,5 @@ _quick("C16", "C16_rotate", "history of C16_whole; after the compaction has chos
 _quick("C18", "C18_handle", "a connection's whole life through the real Server.handle (protocol sniffing in checkProtocol, Process loop, close): text or binary client, first packet a will (LOCK ... WILL) or a PING, then nothing / a second will / a PING, then EOF; the server's writes fail from the first, from the second, or never: every registered will has run exactly once, the connection is closed, its protocol session is gone", ["-witness", "1"], reach=["end", "handled"])
 
 _quick("C18", "C18_willopts", "text LOCK / UNLOCK followed by every sequence of 1..3 options out of {WILL 1, EXPRIED 100, TIMEOUT 0} with WILL at least once (first, last, in the middle, repeated): never executed before the connection ends; registered (+OK) and run exactly once at Close, or refused and never run", ["-witness", "1"], reach=["end", "registered"])
+
+_quick("C15", "C15_release", "a holder sets a value of 2 symbolic bytes (persistence timing never / default / at once) and its hold ends by release or by expiry (E = 3 s); 0 / 1 / 2 s later another LockId takes the key with APPEND of 1 symbolic byte: no value from before in the reply, the stored value is the appended byte alone", ["-witness", "1"], reach=["end"])
